@@ -214,6 +214,7 @@ func execC14(sc *Scenario, env *Env) *Result {
 		res.add("reach.interleaved", 1)
 	}
 	res.Hash = out.TraceHash
+	res.Digest = fmt.Sprintf("%s:%d:%s", out.TraceHash, len(out.Decisions), disk.Digest())
 	viol := func(oracle, class, detail, line string) {
 		for _, v := range res.Violations {
 			if v.Class == class {
